@@ -41,10 +41,10 @@ type Dec struct {
 
 type inputInfo struct {
 	fresh bool
-	name string
-	kind string // int|i64|i32|u8|bool|f64|f32|bytes
-	t    *Term
-	bs   []*Term
+	name  string
+	kind  string // int|i64|i32|u8|bool|f64|f32|bytes
+	t     *Term
+	bs    []*Term
 }
 
 type Violation struct {
@@ -107,6 +107,7 @@ type Stats struct {
 	Discharged   int            `json:"discharged"`
 	TrivialObl   int            `json:"trivially_true_assertions"`
 	SolverTimeS  float64        `json:"solver_time_s"`
+	ByteDecided  int            `json:"decided_by_byte_domain"`
 	Steps        int64          `json:"ssa_instructions"`
 	MaxPathSteps int            `json:"max_path_instructions"`
 }
@@ -151,6 +152,10 @@ type Engine struct {
 	trivial     int
 	decisions   int
 	unknownHit  bool
+	decided     map[*Term]bool
+	dom         map[*Term]*byteSet
+	entangled   map[*Term]bool
+	byteDecided int
 	randCtr     int
 	randLog     []randCall
 }
@@ -268,11 +273,23 @@ func (e *Engine) decideK(c *Term, k uint64, free bool) bool {
 	if e.inInit {
 		panic(engineError{"symbolic decision during package initialisation"})
 	}
+	// a condition already decided on this path keeps its value (no query, no trace entry)
+	if v, ok := e.decided[c]; ok {
+		return v
+	}
+	defer func() {
+		if len(e.trace) > 0 {
+			v := e.trace[len(e.trace)-1].V
+			e.decided[c] = v
+			e.decided[e.tt.Not(c)] = !v
+		}
+	}()
 	i := len(e.trace)
 	e.decisions++
 	if i < len(e.prefix) {
 		v := e.prefix[i].V
 		e.trace = append(e.trace, Dec{v, k})
+		e.noteLiteral(c, v)
 		if i >= e.frames {
 			e.pushLit(c, v)
 		}
@@ -285,14 +302,22 @@ func (e *Engine) decideK(c *Term, k uint64, free bool) bool {
 	var rt, rf SatResult
 	if free {
 		rt, rf = RSat, RSat
+	} else if t, f, ok := e.byteDecide(c); ok {
+		rt, rf = RUnsat, RUnsat
+		if t {
+			rt = RSat
+		}
+		if f {
+			rf = RSat
+		}
+		e.byteDecided++
 	} else {
 		rt = e.solver.CheckWith(c)
-	}
-	if free {
-	} else if rt == RUnsat {
-		rf = RSat // pc is satisfiable, so the other side must be
-	} else {
-		rf = e.solver.CheckWith(e.tt.Not(c))
+		if rt == RUnsat {
+			rf = RSat // pc is satisfiable, so the other side must be
+		} else {
+			rf = e.solver.CheckWith(e.tt.Not(c))
+		}
 	}
 	if rt == RUnknown || rf == RUnknown {
 		e.unknownHit = true
@@ -314,6 +339,7 @@ func (e *Engine) decideK(c *Term, k uint64, free bool) bool {
 		panic(engineError{"both branches infeasible: path condition unsatisfiable"})
 	}
 	e.trace = append(e.trace, Dec{v, k})
+	e.noteLiteral(c, v)
 	e.pushLit(c, v)
 	return v
 }
@@ -332,20 +358,29 @@ func (e *Engine) assume(c *Term) {
 			panic(engineError{"prefix contradicts an assumption"})
 		}
 		e.trace = append(e.trace, Dec{V: true})
+		e.noteLiteral(c, true)
 		if i >= e.frames {
 			e.pushLit(c, true)
 		}
 		return
 	}
-	r := e.solver.CheckWith(c)
-	if r == RUnsat {
-		panic(pathEnd{kind: "assume"})
-	}
-	if r == RUnknown {
-		e.unknownHit = true
-		e.x.inconclusive("solver returned unknown on an assumption")
+	if t, _, ok := e.byteDecide(c); ok {
+		if !t {
+			panic(pathEnd{kind: "assume"})
+		}
+		e.byteDecided++
+	} else {
+		r := e.solver.CheckWith(c)
+		if r == RUnsat {
+			panic(pathEnd{kind: "assume"})
+		}
+		if r == RUnknown {
+			e.unknownHit = true
+			e.x.inconclusive("solver returned unknown on an assumption")
+		}
 	}
 	e.trace = append(e.trace, Dec{V: true})
+	e.noteLiteral(c, true)
 	e.pushLit(c, true)
 }
 
@@ -364,6 +399,7 @@ func (e *Engine) chooseEnv(name string, n int) int {
 		i := len(e.trace)
 		c := e.tt.Eq(in.t, e.tt.IntConst(int64(n-1), 64))
 		e.trace = append(e.trace, Dec{V: true})
+		e.noteLiteral(c, true)
 		if i >= e.frames {
 			e.pushLit(c, true)
 		}
@@ -439,6 +475,7 @@ func (e *Engine) assertObl(c *Term, label string) {
 		// already examined on the path that first reached it; follow the recorded side
 		v := e.prefix[i].V
 		e.trace = append(e.trace, Dec{V: v})
+		e.noteLiteral(c, v)
 		if i >= e.frames {
 			e.pushLit(c, v)
 		}
@@ -446,6 +483,14 @@ func (e *Engine) assertObl(c *Term, label string) {
 		if !v {
 			panic(engineError{"prefix follows a failed assertion"})
 		}
+		return
+	}
+	if t, f, ok := e.byteDecide(c); ok && t && !f {
+		e.discharged++
+		e.byteDecided++
+		e.trace = append(e.trace, Dec{V: true})
+		e.noteLiteral(c, true)
+		e.pushLit(c, true)
 		return
 	}
 	neg := e.tt.Not(c)
@@ -458,6 +503,7 @@ func (e *Engine) assertObl(c *Term, label string) {
 		e.discharged++
 		// c is implied by the path condition: no frame needed, but keep trace aligned
 		e.trace = append(e.trace, Dec{V: true})
+		e.noteLiteral(c, true)
 		e.pushLit(c, true)
 		return
 	case RUnknown:
@@ -465,6 +511,7 @@ func (e *Engine) assertObl(c *Term, label string) {
 		e.unknownHit = true
 		e.x.inconclusive("solver returned unknown on obligation " + label)
 		e.trace = append(e.trace, Dec{V: true})
+		e.noteLiteral(c, true)
 		e.pushLit(c, true)
 		return
 	}
@@ -476,6 +523,7 @@ func (e *Engine) assertObl(c *Term, label string) {
 		panic(pathEnd{kind: "violation", msg: label})
 	}
 	e.trace = append(e.trace, Dec{V: true})
+	e.noteLiteral(c, true)
 	e.pushLit(c, true)
 }
 
@@ -624,6 +672,9 @@ func (e *Engine) runPath(prefix []Dec) (end pathEnd) {
 	e.observed = nil
 	e.unknownHit = false
 	e.markersHit = map[string]bool{}
+	e.decided = map[*Term]bool{}
+	e.dom = map[*Term]*byteSet{}
+	e.entangled = map[*Term]bool{}
 	e.randCtr = 0
 	e.randLog = nil
 
@@ -809,6 +860,8 @@ func (x *Explorer) record(e *Engine, end pathEnd) {
 	x.stats.PathEnds[end.kind]++
 	x.stats.Decisions += e.decisions
 	e.decisions = 0
+	x.stats.ByteDecided += e.byteDecided
+	e.byteDecided = 0
 	x.stats.Obligations += e.obligations
 	x.stats.Discharged += e.discharged
 	x.stats.TrivialObl += e.trivial
@@ -859,21 +912,21 @@ func (x *Explorer) record(e *Engine, end pathEnd) {
 // ---- result ----
 
 type Result struct {
-	Harness      string         `json:"harness"`
-	Package      string         `json:"package"`
+	Harness      string           `json:"harness"`
+	Package      string           `json:"package"`
 	Params       map[string]int64 `json:"params"`
-	Solver       string         `json:"solver"`
-	Stats        Stats          `json:"stats"`
-	Functions    []string       `json:"functions_encoded"`
-	Stubs        map[string]int `json:"stubs_hit"`
-	Markers      map[string]int `json:"markers"`
-	Violations   []Violation    `json:"violations"`
-	Inconclusive []string       `json:"inconclusive"`
-	Samples      []Sample       `json:"samples"`
+	Solver       string           `json:"solver"`
+	Stats        Stats            `json:"stats"`
+	Functions    []string         `json:"functions_encoded"`
+	Stubs        map[string]int   `json:"stubs_hit"`
+	Markers      map[string]int   `json:"markers"`
+	Violations   []Violation      `json:"violations"`
+	Inconclusive []string         `json:"inconclusive"`
+	Samples      []Sample         `json:"samples"`
 	Bounds       map[string]int64 `json:"bounds"`
-	Observed     []string       `json:"observed,omitempty"`
-	WallS        float64        `json:"wall_s"`
-	Exhaustive   bool           `json:"exhaustive"`
+	Observed     []string         `json:"observed,omitempty"`
+	WallS        float64          `json:"wall_s"`
+	Exhaustive   bool             `json:"exhaustive"`
 }
 
 func (x *Explorer) Run() (*Result, error) {
